@@ -178,6 +178,10 @@ func Random(r *mon.Rand, o GenOpts) *History {
 			h.Reenter = append(h.Reenter, ro)
 		}
 	}
+	// a separate stream so that the histories themselves stay what they were
+	if r.Fork(77).Chance(1, 6) {
+		h.ZeroTS = true
+	}
 	return h
 }
 
